@@ -121,3 +121,29 @@ def build(reg, standalone):
             "ghost.last_frame_opcode == 0 and ghost.last_frame_fin and ghost.last_frame_payload == b'' and "
             "ghost.last_frame_rsv == 0 and ghost.wellformed and not ghost.in_msg)"],
         **common)
+    build_frame_api(reg)
+
+
+def build_frame_api(reg):
+    """sendMessageFrame(payload): one whole frame of an open message = header for len(payload), then the payload"""
+    common = dict(props=["C01", "C05"], spec_module="specs.ws")
+    reg.contract(
+        WSP + ".sendMessageFrame", params=dict(S, payload="bytes", sync="bool"),
+        requires=INV + [QI, "self._perMessageCompress is None", "not self.send_compressed", "len(payload) < 2**62"],
+        modifies=QMOD + ["ghost.submitted", "ghost.last_key", "self.send_state", FL, "self.send_message_frame_mask", MK,
+                         MK + "._ptr"],
+        ensures=INV + [
+            IGNORED, QI,
+            "implies(old(self.state) == 3, (old(self.send_state) == 1 or old(self.send_state) == 2) and self.send_state == 2)",
+            # header (FIN clear, the message's opcode on its first frame, else 0; minimal length) followed by exactly the payload
+            "implies(old(self.state) == 3 and not %s and old(self.send_state) == 1, ghost.submitted == old(ghost.submitted) + "
+            "enc_header(False, 0, old(self.send_message_opcode), False, len(payload)) + payload)" % MASKED,
+            "implies(old(self.state) == 3 and not %s and old(self.send_state) == 2, ghost.submitted == old(ghost.submitted) + "
+            "enc_header(False, 0, 0, False, len(payload)) + payload)" % MASKED,
+            "implies(old(self.state) == 3 and %s and old(self.send_state) == 1, ghost.submitted == old(ghost.submitted) + "
+            "enc_header(False, 0, old(self.send_message_opcode), True, len(payload)) + ghost.last_key + "
+            "(xormask(payload, ghost.last_key, 0) if (len(payload) > 0 and self.applyMask) else payload))" % MASKED,
+        ],
+        raises={"Exception": "self.state == 3 and not (self.send_state == 1 or self.send_state == 2)"},
+        raises_ensures={"Exception": ["ghost.submitted == old(ghost.submitted) and self.send_state == old(self.send_state)"]},
+        **common)
